@@ -112,6 +112,7 @@ type h2PeerConn struct {
 
 type h2World struct {
 	dialDelay time.Duration // how long the relay's outbound dial (Connect) takes
+	shortErr  bool          // relay sockets report a cut-short read as an error (transport-dependent)
 	vt       *vhT
 	n        *simNet
 	srv      *Server
@@ -178,6 +179,7 @@ func (g *h2Gen) AllocatePacketConn(c AllocateListenerConfig) (net.PacketConn, ne
 	if err != nil {
 		return nil, nil, err
 	}
+	pc.shortErr = g.w.shortErr
 	return pc, pc.addr, nil
 }
 func (g *h2Gen) AllocateListener(c AllocateListenerConfig) (net.Listener, net.Addr, error) {
